@@ -977,8 +977,73 @@ fn scripted(k: usize) -> Option<(Vec<Decl>, Vec<Stmt>)> {
                 Stmt::Truncate { t: 0 },
             ],
         ),
+        // the single-column-PK fast path of DELETE / UPDATE on a table that already holds duplicate keys
+        // (a state outside the invariant; compared with the model only): `c0 = 7` goes through the map and
+        // sees ONE row, `c0 = -4` is not a literal for the parser and goes through the scan
+        20 => (
+            vec![pk0(), plain()],
+            vec![
+                ins(0, &[&[1, 10, 100], &[2, 20, 200], &[3, 30, 300]]),
+                Stmt::Update { t: 0, asg: vec![(0, SExpr::Const(Some(7)))], w: Some(Pred::CmpC(0, Op::Ge, 2)) },
+                Stmt::Update { t: 0, asg: vec![(1, SExpr::Const(Some(0)))], w: Some(Pred::CmpC(0, Op::Eq, 7)) },
+                Stmt::Delete { t: 0, w: Some(Pred::CmpC(0, Op::Eq, 7)) },
+                Stmt::Delete { t: 0, w: Some(Pred::CmpC(0, Op::Eq, 7)) },
+            ],
+        ),
+        21 => (
+            vec![pk0(), plain()],
+            vec![
+                ins(0, &[&[1, 10, 100], &[2, 20, 200], &[3, 30, 300]]),
+                Stmt::Update { t: 0, asg: vec![(0, SExpr::Const(Some(-4)))], w: Some(Pred::CmpC(0, Op::Ge, 2)) },
+                Stmt::Update { t: 0, asg: vec![(1, SExpr::Const(Some(0)))], w: Some(Pred::CmpC(0, Op::Eq, -4)) },
+                Stmt::Delete { t: 0, w: Some(Pred::CmpC(0, Op::Eq, -4)) },
+            ],
+        ),
         _ => return None,
     })
+}
+
+// ------------------------------------------------------------------------------------------
+// the harness's own replay of AppendModeTracker (only used to CLASSIFY a duplicate primary key
+// let in by the bulk-transfer path; the flag itself is compared with the model after every statement)
+// ------------------------------------------------------------------------------------------
+
+#[derive(Clone, Debug, Default)]
+struct TrackerSim {
+    last: Option<Row>,
+    mode: bool,
+    streak: usize,
+}
+
+fn key_gt(a: &[V], b: &[V]) -> bool {
+    for (x, y) in a.iter().zip(b.iter()) {
+        match (x, y) {
+            (Some(x), Some(y)) => {
+                if x != y {
+                    return x > y;
+                }
+            }
+            _ => return false,
+        }
+    }
+    a.len() > b.len()
+}
+
+impl TrackerSim {
+    fn update(&mut self, pk: &[V]) {
+        if let Some(last) = &self.last {
+            if key_gt(pk, last) {
+                self.streak += 1;
+                if self.streak >= 3 {
+                    self.mode = true;
+                }
+            } else {
+                self.mode = false;
+                self.streak = 0;
+            }
+        }
+        self.last = Some(pk.to_vec());
+    }
 }
 
 // ------------------------------------------------------------------------------------------
@@ -987,8 +1052,31 @@ fn scripted(k: usize) -> Option<(Vec<Decl>, Vec<Stmt>)> {
 
 struct Pre {
     rows: Vec<Row>,
+    #[allow(dead_code)]
     mode: bool,
     decl: Decl,
+    trk: TrackerSim,
+    /// rows the statement appended (after-state rows beyond the pre-state length)
+    appended: Vec<Row>,
+}
+
+/// did the bulk-transfer path accept, while the table was in append mode, a key that was already present?
+fn append_mode_let_a_duplicate_in(pre: &Pre) -> bool {
+    let pk = match &pre.decl.pk {
+        Some(p) => p.clone(),
+        None => return false,
+    };
+    let mut trk = pre.trk.clone();
+    let mut present: Vec<Row> = pre.rows.iter().map(|r| proj(&pk, r)).collect();
+    for r in &pre.appended {
+        let k = proj(&pk, r);
+        if trk.mode && present.contains(&k) {
+            return true;
+        }
+        trk.update(&k);
+        present.push(k);
+    }
+    false
 }
 
 /// new rows an UPDATE would write for the rows its WHERE selects (harness's own evaluation)
@@ -1035,7 +1123,7 @@ fn classify(prop: Prop, stmt: &Stmt, v: &Viol, pre: &Pre, bulk: bool) -> &'stati
                 }
             }
             (Stmt::InsertSelect { .. }, Viol::UniqIndex(_)) if !bulk => "unique-index-batch-insert-duplicates",
-            (Stmt::InsertSelect { .. }, Viol::Pk) if bulk && pre.mode => "append-mode-bulk-transfer-duplicate-pk",
+            (Stmt::InsertSelect { .. }, Viol::Pk) if bulk && append_mode_let_a_duplicate_in(pre) => "append-mode-bulk-transfer-duplicate-pk",
             (Stmt::Update { asg, .. }, Viol::UniqIndex(_)) => {
                 let cols = key_cols(v).unwrap();
                 if asg.iter().any(|(c, _)| cols.contains(c)) {
@@ -1101,24 +1189,25 @@ pub fn run(prop: Prop) {
     sum.nontrivial_rule = "a case is one statement of a history with the engine's result and the dumped state after it; non-trivial = the statement was accepted and changed the target table's rows or index set, or was rejected with an error (no-op statements such as an UPDATE selecting no row are not counted); distinct = distinct (schema, pre-state rows, statement) texts".into();
     let mut log = CaseLog::new(&args);
     let n_scripted = (0..).take_while(|k| scripted(*k).is_some()).count();
-    let (n_random, len) = if args.thorough { (12000usize, 60usize) } else { (900usize, 25usize) };
-    let per_shard = if args.thorough { 200 } else { 60 };
+    let (n_random, len) = if args.thorough { (3000usize, 40usize) } else { (560usize, 25usize) };
+    let per_shard = if args.thorough { 100 } else { 37 };
     let total = n_scripted + n_random;
     let only_h: Option<Vec<u64>> = args.only.as_ref().map(|ids| ids.iter().map(|i| i / 1000).collect());
     let mut shard_text: Vec<String> = Vec::new();
     let mut shard_k = 0usize;
-    let header = "From Coq Require Import List ZArith Bool.\nImport ListNotations.\nFrom VibeSQL Require Import Store.Table Store.UserIndex Store.Constraints Store.Dml Run.C10Run.\n";
+    let (run_mod, mism_fn) = if prop == Prop::C10 { ("Run.C10Run", "c10_mismatches") } else { ("Run.C10Run Run.C15Run", "c15_mismatches") };
+    let header = format!("From Coq Require Import List ZArith Bool.\nImport ListNotations.\nFrom VibeSQL Require Import Store.Table Store.UserIndex Store.Constraints Store.Dml {}.\n", run_mod);
     let flush = |texts: &mut Vec<String>, k: &mut usize, args: &Args| {
         if texts.is_empty() {
             return;
         }
-        let mut s = String::from(header);
+        let mut s = header.clone();
         let mut names = Vec::new();
         for (i, t) in texts.iter().enumerate() {
             s.push_str(&format!("Definition h{} : history := {}.\n", i, t));
             names.push(format!("h{}", i));
         }
-        s.push_str(&format!("Eval vm_compute in (c10_mismatches [{}]).\n", names.join(";")));
+        s.push_str(&format!("Eval vm_compute in ({} [{}]).\n", mism_fn, names.join(";")));
         write_shard(args, *k, &s);
         *k += 1;
         texts.clear();
@@ -1157,6 +1246,8 @@ pub fn run(prop: Prop) {
         // declared state at BEGIN (ROLLBACK restores catalog + tables; user indexes are outside)
         let mut txn_decl: Option<Vec<Decl>> = None;
         let mut dirty = false;
+        let mut trks: Vec<TrackerSim> = vec![TrackerSim::default(); hist.decl.len()];
+        let mut txn_trks: Option<Vec<TrackerSim>> = None;
         let mut stmts_coq: Vec<String> = Vec::new();
         let mut obs_coq: Vec<String> = Vec::new();
         let nst = match &script {
@@ -1182,7 +1273,7 @@ pub fn run(prop: Prop) {
             };
             let sql = stmt.sql();
             let tgt = stmt.target();
-            let pre = tgt.map(|t| Pre { rows: cur[t].rows.clone(), mode: cur[t].mode, decl: hist.decl[t].clone() });
+            let mut pre = tgt.map(|t| Pre { rows: cur[t].rows.clone(), mode: cur[t].mode, decl: hist.decl[t].clone(), trk: trks[t].clone(), appended: vec![] });
             let bulk = if let Stmt::InsertSelect { dst, src, .. } = &stmt {
                 let (d, s) = (&hist.decl[*dst], &hist.decl[*src]);
                 dst != src && d.ncols == s.ncols && (0..d.ncols).all(|c| !(d.notnull[c] && !s.notnull[c]))
@@ -1272,6 +1363,41 @@ pub fn run(prop: Prop) {
                 None => (0..hist.decl.len()).collect(),
             };
             let after: Vec<TObs> = (0..hist.decl.len()).map(|t| observe(&db, t)).collect();
+            // the harness's replay of the append-mode tracker (classification only)
+            if let (Some(p), Some(t)) = (pre.as_mut(), tgt) {
+                if after[t].rows.len() >= cur[t].rows.len() && after[t].rows[..cur[t].rows.len()] == cur[t].rows[..] {
+                    p.appended = after[t].rows[cur[t].rows.len()..].to_vec();
+                }
+                match &stmt {
+                    Stmt::Insert { .. } | Stmt::InsertSelect { .. } => {
+                        if let Some(pk) = &p.decl.pk {
+                            for r in &p.appended {
+                                trks[t].update(&proj(pk, r));
+                            }
+                        }
+                    }
+                    Stmt::Delete { w: None, .. } | Stmt::Truncate { .. } if out.is_ok() => trks[t] = TrackerSim::default(),
+                    _ => {}
+                }
+            }
+            if out.is_ok() {
+                match &stmt {
+                    Stmt::Begin => txn_trks = Some(trks.clone()),
+                    Stmt::Commit => txn_trks = None,
+                    Stmt::Rollback => {
+                        if let Some(tt) = txn_trks.take() {
+                            trks = tt;
+                        }
+                    }
+                    _ => {}
+                }
+            }
+            for t in 0..hist.decl.len() {
+                if trks[t].mode != after[t].mode {
+                    sum.finding("harness-tracker-replay-differs", id, format!("after `{}`: harness replay of the append-mode flag of t{} = {}, engine = {}", sql, t, trks[t].mode, after[t].mode), json!({"history": h, "statement": j}));
+                    trks[t].mode = after[t].mode;
+                }
+            }
             stmts_coq.push(stmt.coq());
             obs_coq.push(format!("({}, [{}])", zl(code), dump_ts.iter().map(|t| format!("({}, {})", t, after[*t].coq())).collect::<Vec<_>>().join(";")));
             sum.model_cases += 1;
@@ -1330,7 +1456,7 @@ pub fn run(prop: Prop) {
                             (Some(p), Some(tt)) if tt == *t => classify(prop, &stmt, v, p, bulk),
                             _ => {
                                 // ROLLBACK / ROLLBACK TO have no single target table
-                                let p = Pre { rows: cur[*t].rows.clone(), mode: cur[*t].mode, decl: hist.decl[*t].clone() };
+                                let p = Pre { rows: cur[*t].rows.clone(), mode: cur[*t].mode, decl: hist.decl[*t].clone(), trk: trks[*t].clone(), appended: vec![] };
                                 classify(prop, &stmt, v, &p, bulk)
                             }
                         };
